@@ -154,6 +154,7 @@ func runC09(c *Ctx) {
 	totalAcq, totalRel := 0, 0
 	reported := map[string]bool{}
 	analysed := map[*ssa.Function]bool{}
+	la.isEntry = func(f *ssa.Function) bool { _, ok := entries[f]; return ok }
 	for _, fn := range entryList {
 		res := la.analyze(fn, stU)
 		analysed[fn] = true
